@@ -62,6 +62,19 @@ def gen_procs(rng, tier):
                 llog = rng.choice([255, 255, 1000])
             procs.append({"out": o, "arg": arg, "fac": fac, "lvl": lvl, "ident": ident, "chain": chain, "llog": llog, "calls": calls, "el": el, "fmt": fmt,
                           "stdin_closed": (o in ("file", "devtty", "devnull", "socket", "devlog") and r == reps - 1)})
+    small = lambda n: [(("execve", "execv")[j % 2], b"/bin/x", [b"m%d" % j, b"arg"]) for j in range(n)]
+    base = {"arg": b"", "fac": "USER", "lvl": "INFO", "ident": b"snoopy", "chain": None, "llog": 1000, "el": False, "fmt": b"%{cmdline}"}
+    # every facility once at the devlog sink (priority = facility | level, also for facility 0), levels cycling
+    for j, fac in enumerate(sorted(FAC)):
+        procs.append(dict(base, out="devlog", fac=fac, lvl=sorted(LVL)[j % 8], calls=small(2)))
+    # descriptors 1 / 2 are stream sockets (service started by systemd, inetd, sshd): the record goes to THAT descriptor
+    for o in ("stdout", "stderr"):
+        procs.append(dict(base, out=o, calls=small(3), std_socket=True))
+    # log rotation between the calls of one process: each record goes to the file the configured path names at that moment
+    procs.append(dict(base, out="file", arg=b"@D@/out.log", calls=small(4), pre={1: ["rename\t@D@/out.log\t@D@/out-T.log"], 3: ["rename\t@D@/out.log\t@D@/out-T.log"]}))
+    # one name in two registries within one call: filter `noop` then data source `noop`; output `noop` with data source `noop`
+    procs.append(dict(base, out="file", arg=b"@D@/out.log", chain=b"noop;only_uid:0", fmt=b"<%{noop}>%{cmdline}<%{noop}>", calls=small(3)))
+    procs.append(dict(base, out="noop", chain=b"noop", fmt=b"<%{noop}>%{cmdline}", calls=small(2)))
     return procs
 
 
@@ -122,8 +135,10 @@ def check(run):
                 script.append(call_line(api, path, argv, [] if api == "execve" else None, 0, -1, 2))
             return (i, script, run_script(run, lib, script, "c04-%d" % i, timeout=120))
         # some processes run with descriptor 0 closed: the output's own open()/socket() then returns 0
-        script = (["minpid\t10000"] if p["out"] == "devlog" else []) + list(SINKS) + (["stdin\tclosed"] if p.get("stdin_closed") else []) + ["ini\t" + hexs(ini_of(p)), "env\t" + hexlist([b"PATH=/bin"])]
-        for (api, path, argv) in p["calls"]:
+        sinks = [l.replace("sink\tpipe\t", "sink\tsockpair\t") for l in SINKS] if p.get("std_socket") else list(SINKS)
+        script = (["minpid\t10000"] if p["out"] == "devlog" else []) + sinks + (["stdin\tclosed"] if p.get("stdin_closed") else []) + ["ini\t" + hexs(ini_of(p)), "env\t" + hexlist([b"PATH=/bin"])]
+        for kk, (api, path, argv) in enumerate(p["calls"]):
+            script += p.get("pre", {}).get(kk, [])
             script.append(call_line(api, path, argv, [] if api == "execve" else None, 0, -1, 2))
         # the last call of each process is a simulated successful exec (what is not handed to the OS by then is lost)
         api, path, argv = p["calls"][-1]
@@ -229,7 +244,7 @@ def check(run):
         if why:
             run.violation("record:%s:%s" % (p["out"], why.split(" ")[0] + "-" + why.split(" ")[1]), "spec_violation",
                           "%s (output %s, call %d%s)" % (why, p["out"], k, ", simulated successful exec" if last else ""),
-                          {"failing_input": {"config": ini_of(p).decode(errors="replace"), "call": script[len(script) - len(p["calls"]) + k][:300], "call_index": k},
+                          {"failing_input": {"config": ini_of(p).decode(errors="replace"), "call": [l for l in script if l.startswith("call\t")][k][:300], "call_index": k},
                            "script": script, "call_index": k, "expected": {s: [x[:200] for x in v] for s, v in expected.items()},
                            "observed": {s: [x[:200] for x in v] for s, v in got.items()}, "late": late})
     # ---- whole-run stream: generated snoopy.ini x calls, composed model (System/Compose.v) vs production wrapper
